@@ -303,8 +303,8 @@ def run(tape, ctx, item=None):
             for site, nm in names:
                 if site == "image-name" and t.coin(50, 100, "state.preexist"):
                     flat = nm.replace(b"\x00", b"").decode("latin-1").replace("/", "_")
-                    for ext in (".bmp", ".jpg", ".0.bmp"):
-                        if t.coin(60, 100, "state.preexist.ext"):
+                    for ext in (".bmp", ".jpg", ".0.bmp", ".1.bmp", ".2.bmp", ".1.jpg"):
+                        if t.coin(50, 100, "state.preexist.ext"):
                             p = os.path.normpath(os.path.join(outdir, os.path.basename(flat) + ext))
                             if p.startswith(outdir + os.sep):
                                 pre.append(p)
